@@ -38,6 +38,19 @@ CHECKS = {
    note="Trusted: Coq kernel + VM; hand-written model of Normalize/HandlerType/DetermineDeviceType; evdev.Open failing on synthetic handlers (they are still grouped); Device.ID (taken from the first-discovered handler) is outside the view. No axioms.",
    technique="Coq proof by induction over handler lists + exhaustive-permutation differential correspondence",
    design="§5 C20"),
+ "C12": dict(
+   text="Proof: Coq theorems for every configuration map, identifier and device type that FindConfig returns the first present of "
+        "[user exact; user default; factory exact; factory default] from the keyboard maps for keyboards and the gamepad maps for joysticks, "
+        "ErrNoDefault iff all four are absent, Unsupported for every other type, independent of the other class's maps (C12_precedence); for "
+        "every walk listing that a file that fails to parse / is not *.toml (case-insensitive) / a directory entry leaves the result unchanged "
+        "(C12_isolation, C12_isolation_all); the map holds exactly the last successfully parsed *.toml per identifier in filepath.Walk order "
+        "(C12_contents, C12_later_wins, C12_walk_order); loading never crashes, a missing/unreadable directory gives an error (C12_no_crash), "
+        "with the original callback refuted (C12_missing_dir_crash_refuted). Tie to /repo: real LoadDeviceConfigs + FindConfig on real trees: "
+        "all 16x16 presence combinations x identifiers x 4 device types (exhaustive), broken / non-TOML / upper-case / nested / duplicate files, "
+        "missing and unreadable directories; the per-file parse verdict fed to the model is the real ParseData's; monitors and views evaluated in coqc.",
+   note="Trusted: Coq kernel + VM; hand-written model of loader.go; filepath.Walk order (lexical) and os semantics as exercised; the parser is an oracle here (C09/C10). No axioms.",
+   technique="Coq proof (case analysis + induction over walk listings) + exhaustive-grid differential correspondence on real directory trees",
+   design="§5 C12"),
 }
 
 def main():
